@@ -372,12 +372,19 @@ pub fn check_helpers(ip: IpAddr, port: u16) -> Vec<Finding> {
 /// then a peer advertising `d`; the watcher must come to list exactly that instance (and the peer
 /// exactly the watcher). mode 0: both sync, 1: both tokio, 2: sync peer / tokio watcher.
 pub fn e2e_case(k: usize, d: &Desc, mode: u8) -> Result<Vec<Finding>, String> {
+    e2e_case_gap(k, d, mode, 120)
+}
+
+/// `gap_ms`: how long the watcher has been up when the peer starts. With a gap beyond the
+/// watcher's start-up announcements the peer is a late joiner and learns the watcher only from
+/// the reply to its own start-up query.
+pub fn e2e_case_gap(k: usize, d: &Desc, mode: u8, gap_ms: u64) -> Result<Vec<Finding>, String> {
     use simple_mdns::async_discovery::ServiceDiscovery as ADisc;
     use simple_mdns::sync_discovery::ServiceDiscovery as SDisc;
     use std::time::{Duration, Instant};
     // odd cases use a service name with capital letters (both sides spell it the same way)
     let svc = if k % 2 == 1 { format!("_E2E{}M{}._TCP.local", k, mode) } else { format!("_e2e{}m{}._tcp.local", k, mode) };
-    let case = json!({"kind": "e2e", "k": k, "desc": d, "mode": mode});
+    let case = json!({"kind": "e2e", "k": k, "desc": d, "mode": mode, "gap_ms": gap_ms});
     let watcher_desc = Desc { name: format!("watcher{}", k), ips: ["10.8.8.8".to_string()].into_iter().collect(), ports: [7000u16 + k as u16].into_iter().collect(), attrs: BTreeMap::new() };
     let rt = tokio::runtime::Builder::new_multi_thread().worker_threads(2).enable_all().build().map_err(|e| format!("{}", e))?;
     enum W {
@@ -400,7 +407,7 @@ pub fn e2e_case(k: usize, d: &Desc, mode: u8) -> Result<Vec<Finding>, String> {
         } else {
             W::A(rt.block_on(async { ADisc::new(watcher_desc.to_instance(), &svc, 120) }).map_err(|e| format!("watcher: {:?}", e))?)
         };
-        std::thread::sleep(Duration::from_millis(120));
+        std::thread::sleep(Duration::from_millis(gap_ms));
         let peer = if mode == 1 {
             W::A(rt.block_on(async { ADisc::new(d.to_instance(), &svc, 120) }).map_err(|e| format!("peer: {:?}", e))?)
         } else {
@@ -567,9 +574,25 @@ pub fn run(ctx: &Ctx) {
                 }
             }
         }
+        // late joiners: the peer starts after the watcher's start-up announcements are over
+        if env_ok && why_not.is_none() {
+            for mode in 0..3u8 {
+                match e2e_case_gap(40 + mode as usize * 2, &picks[0], mode, 1400) {
+                    Ok(f) => {
+                        ran += 1;
+                        t.evals += 1;
+                        t.nontrivial += 1;
+                        t.transitions += 2;
+                        t.outcome(if f.is_empty() { "e2e-faithful" } else { "e2e-unfaithful" });
+                        ctx.violations(f);
+                    }
+                    Err(e) => why_not = Some(format!("services could not be started: {}", e)),
+                }
+            }
+        }
         ctx.merge(t);
         ctx.set_extra("e2e_stage", json!({"ran": ran > 0, "cases": ran, "reason": why_not}));
-        ctx.space("end to end over loopback multicast: a real watcher and a real peer (sync/sync, tokio/tokio, sync peer with tokio watcher) per instance description; each side must come to list exactly the other's instance", ran, "complete for the listed descriptions");
+        ctx.space("end to end over loopback multicast: a real watcher and a real peer (sync/sync, tokio/tokio, sync peer with tokio watcher) per instance description; each side must come to list exactly the other's instance; also with the peer joining after the watcher's start-up announcements (late joiner, learns from the reply to its own query)", ran, "complete for the listed descriptions");
     }
     // escape / unescape
     let mut strs: Vec<String> = Vec::new();
@@ -649,7 +672,7 @@ pub fn replay(case: &Value) -> Vec<Finding> {
             Err(e) => vec![finding("C15|replay-unreadable", format!("{}", e), case.clone())],
         },
         "e2e" => match serde_json::from_value::<Desc>(case["desc"].clone()) {
-            Ok(d) => e2e_case(case["k"].as_u64().unwrap_or(0) as usize + 500, &d, case["mode"].as_u64().unwrap_or(0) as u8).unwrap_or_default(),
+            Ok(d) => e2e_case_gap(case["k"].as_u64().unwrap_or(0) as usize + 500, &d, case["mode"].as_u64().unwrap_or(0) as u8, case["gap_ms"].as_u64().unwrap_or(120)).unwrap_or_default(),
             Err(_) => vec![],
         },
         "escape" => check_escape(case["s"].as_str().unwrap_or("")),
